@@ -663,6 +663,21 @@ func (g *gen) sFenv(fc *fctx) []Stmt {
 			&Call{Names: []string{ge}, Fn: Var{"getfenv"}, Args: []Expr{Var{fe}}},
 			&Call{Fn: Var{"emit"}, Args: []Expr{Str{ge}, Bin{"==", Var{ge}, Var{env}}}})
 	}
+	if g.ch(2) == 0 {
+		// two instances of the same upvalue-free function expression are distinct objects with their own environment
+		g.use("fenv_two_instances")
+		mk, f0, f1, f2, a1, a2 := g.fresh("mk"), g.fresh("uf"), g.fresh("uf"), g.fresh("uf"), g.fresh("ur"), g.fresh("ur")
+		g.prog.NFuncs++
+		ufd := &FuncDef{ID: g.prog.NFuncs, Body: []Stmt{&Return{Exprs: []Expr{Var{gv}}}}}
+		g.prog.NFuncs++
+		mkd := &FuncDef{ID: g.prog.NFuncs, Body: []Stmt{&Local{Names: []string{f0}, Exprs: []Expr{Func{ufd}}}, &Return{Exprs: []Expr{Var{f0}}}}}
+		out = append(out,
+			&Local{Names: []string{mk}, Exprs: []Expr{Func{mkd}}},
+			&Call{Names: []string{f1}, Fn: Var{mk}}, &Call{Names: []string{f2}, Fn: Var{mk}},
+			&Call{Fn: Var{"setfenv"}, Args: []Expr{Var{f1}, Var{env}}},
+			&Call{Names: []string{a1}, Fn: Var{f1}}, &Call{Names: []string{a2}, Fn: Var{f2}},
+			&Call{Fn: Var{"emit"}, Args: []Expr{Str{mk}, Var{a1}, Var{a2}, Bin{"==", Var{f1}, Var{f2}}}})
+	}
 	g.cost(12)
 	out = append(out,
 		&Call{Names: []string{r, inner}, Fn: Var{fe}},
@@ -738,6 +753,23 @@ func (g *gen) coBody(fc *fctx) (string, *fnSig, []Stmt) {
 		hsig.yields = true
 		g.declare(&varInfo{name: hn, k: kFn, sig: hsig, fnLevel: fc2.level})
 		body = append(body, &Local{Names: []string{hn}, Exprs: []Expr{Func{hfd}}})
+	}
+	if g.feat("closure") && g.ch(3) == 0 {
+		// a higher-register local is captured before a lower-register one, as the first captures of this thread
+		g.use("descending_capture")
+		la, lb, fa, fb := g.fresh("da"), g.fresh("db"), g.fresh("df"), g.fresh("df")
+		ga, gb := g.fresh("GD"), g.fresh("GD")
+		sig0 := &fnSig{nparams: 0, rets: []retT{{k: kNum}}, cost: 4}
+		mkf := func(v string) *FuncDef {
+			g.prog.NFuncs++
+			return &FuncDef{ID: g.prog.NFuncs, Body: []Stmt{&Assign{Targets: []Expr{Var{v}}, Exprs: []Expr{Bin{"+", Var{v}, Num{1}}}}, &Return{Exprs: []Expr{Var{v}}}}}
+		}
+		body = append(body,
+			&Local{Names: []string{la, lb}, Exprs: []Expr{Num{100}, Num{200}}},
+			&Local{Names: []string{fb}, Exprs: []Expr{Func{mkf(lb)}}},
+			&Local{Names: []string{fa}, Exprs: []Expr{Func{mkf(la)}}},
+			&Assign{Targets: []Expr{Var{ga}}, Exprs: []Expr{Var{fa}}}, &Assign{Targets: []Expr{Var{gb}}, Exprs: []Expr{Var{fb}}})
+		g.globals = append(g.globals, &varInfo{name: ga, k: kFn, sig: sig0, global: true}, &varInfo{name: gb, k: kFn, sig: sig0, global: true})
 	}
 	ny := 1 + g.ch(3)
 	for y := 0; y < ny; y++ {
@@ -1002,7 +1034,6 @@ func GenerateBodies(t Tape, p *Profile, n int) (*Program, []string) {
 	g.prog.NStmts = g.stmts
 	return g.prog, names
 }
-
 
 // subStream is a private SplitMix64 choice stream seeded from one draw of the main tape.
 type subStream struct{ s uint64 }
